@@ -75,7 +75,14 @@ fn call_pair(f: &FnSpec, path_prefix: &str, idx: usize, ufcs: Option<&str>) -> S
         via = match f.deps {
             Deps::Concrete => format!("<Conf as {trait_path}>::{}(&conf{comma}{args})", f.name),
             _ => {
-                let recv = if f.deps.by_value() { "mk_app(7)" } else { "&app" };
+                // (a `no_deps` fn's borrowed result is the argument's: the application it was called on may be gone by then)
+                let recv = if f.deps.by_value() {
+                    "mk_app(7)"
+                } else if f.deps == Deps::NoDeps && f.ret_borrow.is_some() {
+                    "&mk_app(7)"
+                } else {
+                    "&app"
+                };
                 format!("<::entrait::Impl<App> as {trait_path}>::{}({recv}{comma}{args})", f.name)
             }
         };
